@@ -206,6 +206,10 @@ func c02GenCase(r *rand.Rand) (c *c01Case) {
 	}
 	c.qtype = vutil.Pick(r, []uint16{dns.TypeA, dns.TypeA, dns.TypeA, dns.TypeAAAA, dns.TypeAAAA, dns.TypeHTTPS, dns.TypeHTTPS, dns.TypeMX, dns.TypeCNAME})
 	name := vutil.Pick(r, []string{"site.example.com", "www.site.example.com", "example.org", "whitelist.example.org", "Site.Example.COM"})
+	c01GenDHCP(r, c, &name)
+	if r.IntN(2) == 0 {
+		name = c01MixCase(r, name)
+	}
 	c.qname = name + "."
 	revealed := c02GenAnswer(r, c)
 	// the upstream's rcode is a dimension of its own: a negative or failed answer may
@@ -333,7 +337,7 @@ func c02SeqGen(r *rand.Rand, emit vutil.Emit) {
 		}
 		for _, q := range seq {
 			n := q.name
-			if r.IntN(4) == 0 {
+			if r.IntN(2) == 0 {
 				n = c01MixCase(r, strings.ToLower(n))
 			}
 			emit("C02.sq", vutil.Hex(n), vutil.Itoa(int(q.qt)))
